@@ -43,7 +43,8 @@ import (
 func init() {
 	core.Register(&core.Prop{
 		ID:   "C08",
-		Rule: "distinct histories; non-trivial = some pool value is used by two or more later steps, or a step operates on the result of an earlier operation",
+		Rule: "distinct histories; non-trivial = some pool value is used by two or more later steps, or a step operates on the result of an earlier operation; " +
+			"op res: a Deferred was resolved and two scopes told it apart (or an error was raised); op mut: the history changes a builder (Put/PutAll)",
 		Gen:  gen,
 		Exec: exec,
 	})
